@@ -63,6 +63,8 @@ const KEYS: &[KeyInfo] = &[
     KeyInfo { key: "CellT", copy: false, tracked: true, send: true, sync: false, droppable: true },
     KeyInfo { key: "PtrT", copy: false, tracked: true, send: false, sync: false, droppable: true },
     KeyInfo { key: "GuardT", copy: false, tracked: true, send: false, sync: true, droppable: true },
+    KeyInfo { key: "FnRc", copy: false, tracked: true, send: true, sync: true, droppable: true },
+    KeyInfo { key: "MxCell", copy: false, tracked: true, send: true, sync: true, droppable: true },
 ];
 
 fn key_info(key: &str) -> &'static KeyInfo {
@@ -100,6 +102,8 @@ macro_rules! with_key_any {
             "CellT" => $b.add_datum::<lab_types::CellT, _>($name),
             "PtrT" => $b.add_datum::<lab_types::PtrT, _>($name),
             "GuardT" => $b.add_datum::<lab_types::GuardT, _>($name),
+            "FnRc" => $b.add_datum::<lab_types::FnRc, _>($name),
+            "MxCell" => $b.add_datum::<lab_types::MxCell, _>($name),
             other => with_key!(other, $b, add_datum, $name),
         }
     };
@@ -176,6 +180,12 @@ fn probe_mode(cases_path: &str, crate_dir: &str) {
                 with_key_override!(key, b, "twin", ov).unwrap();
                 b.close_record_variant();
             }
+            if c["life"].as_str().unwrap_or("kept") == "removed" {
+                let id = b.get_current_datum_definition_by_name("target").expect("target").id();
+                b.remove_datum(id).unwrap();
+                b.add_datum::<lab_types::P4, _>("tail").unwrap();
+                b.close_record_variant();
+            }
             let def = b.build();
             generate(&def, &GeneratorConfig::default())
         }));
@@ -215,6 +225,8 @@ fn static_table() -> StaticTypeResolver {
     r.add_type::<lab_types::CellT>();
     r.add_type::<lab_types::PtrT>();
     r.add_type::<lab_types::GuardT>();
+    r.add_type::<lab_types::FnRc>();
+    r.add_type::<lab_types::MxCell>();
     r
 }
 
@@ -305,9 +317,41 @@ fn fields_of(built: &Built, ids: impl Iterator<Item = DatumId>) -> Vec<Field> {
     .collect()
 }
 
+/// The name the runtime hooks report for the type behind a palette key (`std::any::type_name`).
+fn key_tyname(key: &str) -> &'static str {
+    use std::any::type_name as n;
+    match key {
+        "P1" => n::<lab_types::P1>(),
+        "P2" => n::<lab_types::P2>(),
+        "P4" => n::<lab_types::P4>(),
+        "P8" => n::<lab_types::P8>(),
+        "P16" => n::<lab_types::P16>(),
+        "Odd3" => n::<lab_types::Odd3>(),
+        "Odd12" => n::<lab_types::Odd12>(),
+        "Odd24" => n::<lab_types::Odd24>(),
+        "Over16" => n::<lab_types::Over16>(),
+        "Zst" => n::<lab_types::Zst>(),
+        "ZstA8" => n::<lab_types::ZstA8>(),
+        "ZstDrop" => n::<lab_types::ZstDrop>(),
+        "Tracked" => n::<lab_types::Tracked>(),
+        "TrackedOdd" => n::<lab_types::TrackedOdd>(),
+        "TrackedBig" => n::<lab_types::TrackedBig>(),
+        "Str" => n::<lab_types::Str>(),
+        "VecU" => n::<lab_types::VecU>(),
+        "RcT" => n::<lab_types::RcT>(),
+        "CellT" => n::<lab_types::CellT>(),
+        "PtrT" => n::<lab_types::PtrT>(),
+        "GuardT" => n::<lab_types::GuardT>(),
+        "FnRc" => n::<lab_types::FnRc>(),
+        "MxCell" => n::<lab_types::MxCell>(),
+        other => panic!("unknown key {}", other),
+    }
+}
+
 fn field_json(f: &Field) -> Value {
     let k = key_info(&f.key);
-    json!({"fid": f.fid, "name": f.name, "key": f.key, "off": f.off, "size": f.size, "align": f.align,
+    json!({"fid": f.fid, "name": f.name, "key": f.key, "tyname": key_tyname(&f.key),
+        "off": f.off, "size": f.size, "align": f.align,
         "uninit": f.uninit, "tracked": k.tracked, "droppable": k.droppable, "copy": k.copy,
         "send": k.send, "sync": k.sync})
 }
